@@ -241,6 +241,21 @@ struct JSONUtils {
                 }
 
                 default: {
+                    if (SizeT32(ch) < 0x20U) {
+                        // The remaining control characters have no short form: \u00XX.
+                        constexpr const char *hex = "0123456789abcdef";
+
+                        stream.Write((content + offset2), (offset - offset2));
+                        offset2 = offset;
+                        ++offset2;
+
+                        stream += JSONotation::BSlashChar;
+                        stream += JSONotation::U_Char;
+                        stream += Char_T('0');
+                        stream += Char_T('0');
+                        stream += Char_T(hex[(SizeT32(ch) >> 4U)]);
+                        stream += Char_T(hex[(SizeT32(ch) & 0xFU)]);
+                    }
                 }
             }
 
